@@ -55,7 +55,7 @@ func c14Gen(r *Rng, tier string, i int) Sx {
 }
 
 func c14Exec(c Sx) Sx {
-	if c.Head() == "c14r" {
+	if c.Head() == "rt" {
 		return c14rExec(c)
 	}
 	xs := c.Lst()
@@ -90,7 +90,7 @@ func c14Exec(c Sx) Sx {
 }
 
 func c14Classify(c, obs Sx) []string {
-	if c.Head() == "c14r" {
+	if c.Head() == "rt" {
 		return c14rClassify(c, obs)
 	}
 	xs := c.Lst()
